@@ -43,15 +43,37 @@ def route_results(doc, routes=("dict", "yaml", "json", "builder")):
             elif r == "yaml":
                 s = io.StringIO()
                 demes.load_dump._dump_yaml_fromdict(copy.deepcopy(doc), s)
+                spoil_earlier_load(s.getvalue(), "yaml")
                 g = demes.loads(s.getvalue())
             elif r == "json":
                 d = copy.deepcopy(doc)
                 text = json.dumps(stringify_doc(d))
+                spoil_earlier_load(text, "json")
                 g = demes.loads(text, format="json")
             out[r] = ("ok", canon(g.asdict()), g)
         except Exception as e:  # noqa: BLE001
             out[r] = ("err", type(e).__name__, None)
     return out
+
+
+def spoil_earlier_load(text, fmt):
+    """a user loads the same text first as a dictionary and edits what they got, at every depth: a later load of the
+    text must not see any of it (each load parses the text afresh)"""
+    try:
+        d = demes.loads_asdict(text, format=fmt)
+    except Exception:  # noqa: BLE001
+        return
+
+    def spoil(v):
+        if isinstance(v, dict):
+            for x in list(v.values()):
+                spoil(x)
+            v["zz_spoilt"] = 1
+        elif isinstance(v, list):
+            for x in v:
+                spoil(x)
+            v.append({"name": "zz_spoilt"})
+    spoil(d)
 
 
 def inplace_assign(old, new):
